@@ -19,6 +19,7 @@
 //     (GRANT R after login).
 //   - mechanism: session (OpenSession, "sessionid" header), token (legacy Login+UseDatabase, "authorization"
 //     header), token2 (token while a second client of the same user is logged in as well).
+//
 // Bound: quick = all methods and requests x {valid session of every role x selection, nocreds, bogus} plus a
 // 6 group sample of the other states; thorough = the full product (states that do not apply to a role are left out).
 // One server is shared by the groups that a worker runs one after the other (its start costs seconds); every group
@@ -27,13 +28,15 @@
 // Oracle (independent of the server's permission tables, see mayChange / forbidden): before and after every call
 // the sysadmin takes a snapshot of EVERY database: tx state (CurrentState), settings, SQL tables, collections,
 // plus the user list and the set of database directories.
-//   (i)   a component may change only if the principal holds the required right on it (RW/admin/sysadmin for
-//         the content of a database, admin for settings/users/database list); never for an invalid session;
-//         systemdb never through data RPCs.
-//   (ii)  no response may contain the marker stored in a database the principal cannot read; a principal without
-//         any right / with an invalid session gets an error from every method that needs authentication.
-//   (iii) administrative methods fail for non-admins.
-//   (iv)  positive controls are counted (not demanded by the property): authorised calls succeed and change state.
+//
+//	(i)   a component may change only if the principal holds the required right on it (RW/admin/sysadmin for
+//	      the content of a database, admin for settings/users/database list); never for an invalid session;
+//	      systemdb never through data RPCs.
+//	(ii)  no response may contain the marker stored in a database the principal cannot read; a principal without
+//	      any right / with an invalid session gets an error from every method that needs authentication.
+//	(iii) administrative methods fail for non-admins.
+//	(iv)  positive controls are counted (not demanded by the property): authorised calls succeed and change state.
+//
 // Signature: acl-breach method=<full> role=<role> db=<sel> session=<state> effect=<...> auth=<mech> req=<request>
 package main
 
@@ -141,7 +144,7 @@ type group struct {
 }
 
 func (g group) String() string { return g.Role + "/" + g.Sel + "/" + g.State + "/" + g.Mech }
-func (g group) valid() bool     { return g.State == "valid" }
+func (g group) valid() bool    { return g.State == "valid" }
 
 // level: the right the principal's CURRENT CREDENTIALS legitimately carry on db (none for every invalid session).
 func (g group) level(db string, sysGrant bool) int {
@@ -189,12 +192,12 @@ func (g group) named() string {
 // ---------- methods and request variants ----------
 
 type method struct {
-	Full, Service, Short     string
-	In, Out                  protoreflect.MessageType
+	Full, Service, Short       string
+	In, Out                    protoreflect.MessageType
 	ClientStream, ServerStream bool
-	Need                     need
-	Classified               bool
-	Variants                 []*variant
+	Need                       need
+	Classified                 bool
+	Variants                   []*variant
 }
 
 type variant struct {
@@ -203,11 +206,11 @@ type variant struct {
 	Named  bool // the request names the group's named database: rights are evaluated on it
 	Admin  bool // kind "administration" (may legitimately write user/db records to systemdb) even if the method is a data method
 	build  func(e *env) proto.Message
-	chunks func(e *env) []proto.Message                          // client streaming
-	pre    func(e *env, ctx context.Context) context.Context     // prerequisite calls with the principal's credentials
-	prep   func(e *env)                                          // prerequisite by the sysadmin (forces fresh snapshots)
-	post   func(e *env)                                          // repair by the sysadmin
-	forbid func(g group, e *env) bool                            // overrides the default "success is a breach" rule
+	chunks func(e *env) []proto.Message                      // client streaming
+	pre    func(e *env, ctx context.Context) context.Context // prerequisite calls with the principal's credentials
+	prep   func(e *env)                                      // prerequisite by the sysadmin (forces fresh snapshots)
+	post   func(e *env)                                      // repair by the sysadmin
+	forbid func(g group, e *env) bool                        // overrides the default "success is a breach" rule
 	// positive control: minimal level on the target at which the call is expected to succeed (0 = no expectation)
 	okFrom  int
 	changes bool // ... and to change state
@@ -290,7 +293,10 @@ func variantsFor(full, short string) []*variant {
 		}
 	case "Login":
 		return []*variant{
-			{Name: "own-creds", build: func(e *env) proto.Message { u, p := ownCreds(e); return &schema.LoginRequest{User: []byte(u), Password: []byte(p)} },
+			{Name: "own-creds", build: func(e *env) proto.Message {
+				u, p := ownCreds(e)
+				return &schema.LoginRequest{User: []byte(u), Password: []byte(p)}
+			},
 				forbid: func(g group, e *env) bool { return g.userLevel(dbOwn, e.sysGrant) < 0 }},
 			{Name: "bad-password", need: nNever, build: func(e *env) proto.Message {
 				return &schema.LoginRequest{User: []byte("immudb"), Password: []byte("wrong-" + userPw)}
@@ -364,7 +370,9 @@ func variantsFor(full, short string) []*variant {
 			return &schema.VerifiableReferenceRequest{ReferenceRequest: &schema.ReferenceRequest{Key: []byte(e.fresh("ref")), ReferencedKey: []byte(kSeed)}}
 		})
 	case "ZAdd":
-		return one("seed", lvRW, true, func(e *env) proto.Message { return &schema.ZAddRequest{Set: []byte("zs"), Score: 2, Key: []byte(kSeed)} })
+		return one("seed", lvRW, true, func(e *env) proto.Message {
+			return &schema.ZAddRequest{Set: []byte("zs"), Score: 2, Key: []byte(kSeed)}
+		})
 	case "VerifiableZAdd":
 		return one("seed", lvRW, true, func(e *env) proto.Message {
 			return &schema.VerifiableZAddRequest{ZAddRequest: &schema.ZAddRequest{Set: []byte("zs"), Score: 3, Key: []byte(kSeed)}}
@@ -456,7 +464,9 @@ func variantsFor(full, short string) []*variant {
 	case "GetCollection":
 		return one("seed", lvR, false, func(e *env) proto.Message { return &protomodel.GetCollectionRequest{Name: e.col()} })
 	case "UpdateCollection":
-		return one("seed", lvRW, true, func(e *env) proto.Message { return &protomodel.UpdateCollectionRequest{Name: e.col(), DocumentIdFieldName: e.fresh("docid")} })
+		return one("seed", lvRW, true, func(e *env) proto.Message {
+			return &protomodel.UpdateCollectionRequest{Name: e.col(), DocumentIdFieldName: e.fresh("docid")}
+		})
 	case "DeleteCollection":
 		return one("seed", lvRW, true, func(e *env) proto.Message { return &protomodel.DeleteCollectionRequest{Name: e.colDel()} })
 	case "AddField":
@@ -464,11 +474,17 @@ func variantsFor(full, short string) []*variant {
 			return &protomodel.AddFieldRequest{CollectionName: e.col(), Field: &protomodel.Field{Name: e.fresh("f"), Type: protomodel.FieldType_INTEGER}}
 		})
 	case "RemoveField":
-		return one("seed", lvRW, true, func(e *env) proto.Message { return &protomodel.RemoveFieldRequest{CollectionName: e.col(), FieldName: "frem"} })
+		return one("seed", lvRW, true, func(e *env) proto.Message {
+			return &protomodel.RemoveFieldRequest{CollectionName: e.col(), FieldName: "frem"}
+		})
 	case "CreateIndex":
-		return one("seed", lvRW, true, func(e *env) proto.Message { return &protomodel.CreateIndexRequest{CollectionName: e.col(), Fields: []string{"fidx"}} })
+		return one("seed", lvRW, true, func(e *env) proto.Message {
+			return &protomodel.CreateIndexRequest{CollectionName: e.col(), Fields: []string{"fidx"}}
+		})
 	case "DeleteIndex":
-		return one("seed", lvRW, true, func(e *env) proto.Message { return &protomodel.DeleteIndexRequest{CollectionName: e.col(), Fields: []string{"fidxdel"}} })
+		return one("seed", lvRW, true, func(e *env) proto.Message {
+			return &protomodel.DeleteIndexRequest{CollectionName: e.col(), Fields: []string{"fidxdel"}}
+		})
 	case "InsertDocuments":
 		return one("new", lvRW, true, func(e *env) proto.Message {
 			return &protomodel.InsertDocumentsRequest{CollectionName: e.col(), Documents: []*structpb.Struct{doc(map[string]interface{}{"name": e.fresh("d")})}}
@@ -484,7 +500,9 @@ func variantsFor(full, short string) []*variant {
 				{Field: "name", Operator: protomodel.ComparisonOperator_EQ, Value: sv("to-delete")}}}}, Limit: 1}}
 		})
 	case "SearchDocuments":
-		return one("all", lvR, false, func(e *env) proto.Message { return &protomodel.SearchDocumentsRequest{Query: seedQ(e), Page: 1, PageSize: 10} })
+		return one("all", lvR, false, func(e *env) proto.Message {
+			return &protomodel.SearchDocumentsRequest{Query: seedQ(e), Page: 1, PageSize: 10}
+		})
 	case "CountDocuments":
 		return one("all", lvR, false, func(e *env) proto.Message { return &protomodel.CountDocumentsRequest{Query: seedQ(e)} })
 	case "AuditDocument":
@@ -548,7 +566,8 @@ type host struct {
 	used     map[string]bool   // db -> a principal with write access has worked on the current generation
 	docIDs   map[string]string // db -> id of the marker document of the current generation
 	groups   int
-	dirty    bool
+	dirty    bool // unusable (a base database is gone): replace it now
+	retire   bool // do not hand it to another group
 }
 
 type env struct {
@@ -1243,7 +1262,8 @@ func runCell(e *env, m *method, v *variant) {
 	// environment upkeep
 	if len(vs) > 0 {
 		// after a breach: data written to dbown/dbother does not disturb later cells (the consumables count as used);
-		// anything else (systemdb, settings, database list) is a state nobody should have produced: start over
+		// anything else (systemdb, settings, database list) is a state nobody should have produced: the group goes on
+		// (all comparisons are relative) but the server is not handed to another group
 		for _, comp := range diff(before, after) {
 			_, db, _ := strings.Cut(comp, ":")
 			if comp == "users" {
@@ -1253,8 +1273,7 @@ func runCell(e *env, m *method, v *variant) {
 				e.used[db] = true
 				continue
 			}
-			e.host.dirty = true
-			return
+			e.host.retire = true
 		}
 		if nd := m.Need; !g.valid() && (nd == nUnclassified || nd == nNoAuth || nd == nAuth) {
 			e.stale = true // e.g. a Logout that should have been refused: the (wrongly accepted) credentials may be gone now
@@ -1313,7 +1332,7 @@ func getHost() *host {
 }
 
 func putHost(h *host) {
-	if h.dirty || h.groups >= 30 {
+	if h.dirty || h.retire || h.groups >= 30 {
 		h.close()
 		return
 	}
@@ -1484,9 +1503,17 @@ func main() {
 	}
 	// a successful Login with the principal's own password re-registers the user at the server and thereby changes
 	// what the group's (possibly invalidated) token means: these requests run after all the others
-	sort.SliceStable(cells, func(i, j int) bool {
-		return !(cells[i].m.Short == "Login" && cells[i].v.Name == "own-creds") && cells[j].m.Short == "Login" && cells[j].v.Name == "own-creds"
-	})
+	// ... and the deletion of the named database comes last of all (an authorised deletion ends the life of the server)
+	rank := func(x cell) int {
+		switch {
+		case x.m.Short == "DeleteDatabase" && x.v.Name != "zero":
+			return 2
+		case x.m.Short == "Login" && x.v.Name == "own-creds":
+			return 1
+		}
+		return 0
+	}
+	sort.SliceStable(cells, func(i, j int) bool { return rank(cells[i]) < rank(cells[j]) })
 	par, serial := groupsFor(c.Thorough())
 	c.Set("groups", len(par)+len(serial))
 	if f := os.Getenv("C18_GROUP"); f != "" { // development aid: run only the groups whose name contains f
